@@ -2,6 +2,7 @@ package worldp
 
 import (
 	"bytes"
+	"errors"
 	"fmt"
 	"math"
 	"path"
@@ -55,7 +56,9 @@ func init() {
 }
 
 func c14Prefix(budgetIdx int, opts []int) core.Trace {
-	t := core.Trace{{L: "cancel", N: c14CancelModes, V: 0}, {L: "budget", N: len(c14Budgets), V: budgetIdx}, {L: "keypool-base", N: 40, V: 0}}
+	t := core.Trace{{L: "cancel", N: c14CancelModes, V: 0}, {L: "budget", N: len(c14Budgets), V: budgetIdx}, {L: "keypool-base", N: 40, V: 0},
+		// (planned scripts: plain back-end errors, a first submission)
+		{L: "errors-wrap-a-cause?", N: 100, V: 0}, {L: "resubmission?", N: 100, V: 0}}
 	for _, o := range opts {
 		if o == 0 {
 			t = append(t, core.Choice{L: "interfere?", N: 3, V: 0})
@@ -229,10 +232,38 @@ func runC14(r *core.Run) {
 	sc := &c14Script{r: r, vcs: vcs, manifest: manifest, cancelMode: cancelMode}
 	vcs.Between, vcs.Decide = sc.between, sc.decide
 	vcs.CommitRepr = c14CommitRepr(r)
-	startCalls := len(vcs.Calls)
+	// the back end's errors may wrap a lower-level cause that, on its own, it would class the other
+	// way (a permanent "permission denied" around a transient RPC error; a retriable conflict around
+	// a plain error): the back end speaks for its own error
+	if r.Chance(30, "errors-wrap-a-cause?") {
+		vcs.WrapCause = func(retriable bool) error {
+			if retriable {
+				return errors.New("rpc error: connection reset by peer")
+			}
+			return &seams.VCSError{Site: "transport", Retriable: true}
+		}
+	}
+	startCalls, startSpaces := len(vcs.Calls), len(vcs.Spaces)
+	var fileBefore []byte // (resubmission) the endorsement file the earlier submission committed
 	img := images.Pool()[0]
 	q := Req{Image: img, OutDir: "out", Candidate: "c14", SNP: true, LaunchVmsas: 2, ClSpec: 7, Timestamp: a.Now, Retries: budget}
 	snapshot := cancelMode >= 9
+	// a forced re-run of a submission that already landed: same candidate, same image, same
+	// timestamp, --overwrite. The manifest it renders equals the one it reads; the endorsement
+	// file is signed anew. It is a submission like any other.
+	if cancelMode < 4 && r.Chance(12, "resubmission?") {
+		vcs.Between, vcs.Decide = nil, nil
+		if _, perr := Endorse(r, a, vcs, q, ""); perr != nil {
+			r.HarnessErr = "fault-free first submission failed: " + perr.Error()
+			return
+		}
+		q.Overwrite = true
+		vcs.Between, vcs.Decide = sc.between, sc.decide
+		vcs.Results, startCalls, startSpaces = nil, len(vcs.Calls), len(vcs.Spaces)
+		fileBefore = append([]byte(nil), vcs.Head["/release/out/c14.binarypb"]...)
+		sc.attempt = 0
+		r.Probe("resubmission")
+	}
 	if snapshot {
 		// snapshot mode: firmware, signed endorsement and event files go to a directory of their
 		// own; no manifest is involved, the attempt/retry/workspace rules are the same
@@ -274,7 +305,7 @@ func runC14(r *core.Run) {
 		}
 	}
 	// map workspaces to attempts in creation order
-	wsIdx := 0
+	wsIdx := startSpaces
 	for _, x := range atts {
 		if x.getErr == nil {
 			wsIdx++
@@ -439,7 +470,8 @@ func runC14(r *core.Run) {
 		}
 	}
 	if succeeded == 0 {
-		if _, leaked := vcs.Head["/release/out/c14.binarypb"]; leaked {
+		// (after an earlier submission the file is there already: then it must be that one's, untouched)
+		if now, leaked := vcs.Head["/release/out/c14.binarypb"]; leaked && !(fileBefore != nil && bytes.Equal(now, fileBefore)) {
 			r.Fail("success-misreported", "partial-commit", "%s: no commit succeeded, yet the endorsement file is in the repository head", where)
 		}
 	}
